@@ -563,6 +563,10 @@ def tests_of(f):
 
 def canonicalise(tree, rel):
     rc = reference_compares().get(rel, {})
+    known_funcs = reference().get('__functions__', {}).get(rel)
+    if known_funcs:
+        if inline_new_helpers(tree, set(known_funcs)):
+            ast.fix_missing_locations(tree)
     tree = _Shape(dict((q, set(v.get('tests', ()))) for q, v in rc.items())).visit(tree)
     ast.fix_missing_locations(tree)
     ref = reference().get(rel, {})
@@ -604,3 +608,264 @@ def canonicalise(tree, rel):
         visit(tree, '')
     tree._canon_renamed = renamed
     return tree
+
+
+# ---- inlining of helpers the reference tree does not have ------------------------------------------------------------
+# A function that is new relative to the reference (an extracted helper) is substituted back at its call sites when this
+# is plainly behaviour preserving: a plain method called as self.h(...) from the same class, or a module-level function
+# called as h(...); positional / keyword arguments only; every `return` of the helper in tail position; no generator.
+# The rules then see the code where it was before the extraction.  What cannot be inlined is left alone.
+
+import copy as _copy
+
+
+def _own_returns(f):
+    return [n for n in own_nodes(f) if isinstance(n, ast.Return)]
+
+
+def _strip_doc(body):
+    if body and isinstance(body[0], ast.Expr) and isinstance(body[0].value, ast.Constant) and isinstance(body[0].value.value, str):
+        return body[1:]
+    return body
+
+
+def _tail_convert(stmts, on_return, on_falloff, seen):
+    """rewrites the tail positions of a statement list; `seen` collects the Return nodes met"""
+    if not stmts:
+        return on_falloff()
+    head, last = stmts[:-1], stmts[-1]
+    if isinstance(last, ast.Return):
+        seen.append(last)
+        return head + on_return(last)
+    if isinstance(last, ast.Raise):
+        return stmts
+    if isinstance(last, ast.If):
+        last.body = _tail_convert(last.body, on_return, on_falloff, seen) or [ast.copy_location(ast.Pass(), last)]
+        last.orelse = _tail_convert(last.orelse, on_return, on_falloff, seen)
+        return head + [last]
+    if isinstance(last, ast.Try) and not last.finalbody:
+        if last.orelse:
+            last.orelse = _tail_convert(last.orelse, on_return, on_falloff, seen)
+        else:
+            last.body = _tail_convert(last.body, on_return, on_falloff, seen) or [ast.copy_location(ast.Pass(), last)]
+        for h in last.handlers:
+            h.body = _tail_convert(h.body, on_return, on_falloff, seen) or [ast.copy_location(ast.Pass(), h)]
+        return head + [last]
+    if isinstance(last, (ast.With, ast.AsyncWith)):
+        last.body = _tail_convert(last.body, on_return, on_falloff, seen) or [ast.copy_location(ast.Pass(), last)]
+        return head + [last]
+    return stmts + on_falloff()
+
+
+def _inlinable(h, is_method):
+    if h.decorator_list or isinstance(h, ast.AsyncFunctionDef):
+        return False
+    a = h.args
+    if a.vararg or a.kwarg or a.kwonlyargs or getattr(a, 'posonlyargs', None):
+        return False
+    if any(not isinstance(d, ast.Constant) for d in a.defaults):
+        return False
+    params = [x.arg for x in a.args]
+    if is_method and (not params or params[0] != 'self'):
+        return False
+    own = own_nodes(h)
+    if any(isinstance(n, (ast.Yield, ast.YieldFrom, ast.Await, ast.Global, ast.Nonlocal)) for n in own):
+        return False
+    if any(isinstance(n, (ast.FunctionDef, ast.AsyncFunctionDef, ast.ClassDef)) for n in ast.walk(h) if n is not h):
+        return False
+    body = _strip_doc(h.body)
+    if not body:
+        return False
+    # every return in tail position (checked on a copy)
+    seen = []
+    _tail_convert(_copy.deepcopy(body), lambda r: [r], lambda: [], seen)
+    if len(seen) != len(_own_returns(h)):
+        return False
+    # not recursive
+    for n in ast.walk(h):
+        if isinstance(n, ast.Call):
+            fn = n.func
+            if (isinstance(fn, ast.Name) and fn.id == h.name) or (isinstance(fn, ast.Attribute) and fn.attr == h.name):
+                return False
+    return True
+
+
+def _match_call(call, h, is_method):
+    if not isinstance(call, ast.Call):
+        return None
+    fn = call.func
+    if is_method:
+        if not (isinstance(fn, ast.Attribute) and fn.attr == h.name and isinstance(fn.value, ast.Name) and fn.value.id == 'self'):
+            return None
+    elif not (isinstance(fn, ast.Name) and fn.id == h.name):
+        return None
+    if any(isinstance(x, ast.Starred) for x in call.args) or any(k.arg is None for k in call.keywords):
+        return None
+    params = [x.arg for x in h.args.args]
+    if is_method:
+        params = params[1:]
+    if len(call.args) > len(params):
+        return None
+    binding = {}
+    for p, a in zip(params, call.args):
+        binding[p] = a
+    for k in call.keywords:
+        if k.arg not in params or k.arg in binding:
+            return None
+        binding[k.arg] = k.value
+    defaults = h.args.defaults
+    dparams = [x.arg for x in h.args.args][len(h.args.args) - len(defaults):] if defaults else []
+    for p, d in zip(dparams, defaults):
+        binding.setdefault(p, d)
+    if set(binding) != set(params):
+        return None
+    return [(p, binding[p]) for p in params]
+
+
+class _Sub(ast.NodeTransformer):
+    def __init__(self, mapping):
+        self.mapping = mapping
+
+    def visit_Name(self, n):
+        if isinstance(n.ctx, ast.Load) and n.id in self.mapping:
+            return _copy.deepcopy(self.mapping[n.id])
+        return n
+
+
+def _instantiate(h, binding, caller, is_method):
+    """-> (prologue statements binding parameters, body copy with substituted parameters) or None"""
+    body = _copy.deepcopy(_strip_doc(h.body))
+    stored = set(n.id for st in body for n in ast.walk(st) if isinstance(n, ast.Name) and isinstance(n.ctx, (ast.Store, ast.Del)))
+    subst, pro = {}, []
+    for p, a in binding:
+        if p not in stored and isinstance(a, (ast.Name, ast.Constant)):
+            subst[p] = a
+        else:
+            pro.append(ast.Assign(targets=[ast.Name(id=p, ctx=ast.Store())], value=_copy.deepcopy(a)))
+    # locals of the helper that would collide with unrelated names of the caller are renamed apart
+    params = set(p for p, _a in binding)
+    hl = [n for n in ordered_locals(h) if n not in params]
+    cn = _all_names(caller)
+    wrap = ast.FunctionDef(name='_', args=ast.arguments(posonlyargs=[], args=[], kwonlyargs=[], kw_defaults=[], defaults=[]), body=pro + body, decorator_list=[])
+    clash = dict((n, n + '_h') for n in hl if n in cn and n not in subst)
+    # a helper local equal to a caller local is the usual outcome of an extraction (same variable before): keep it when the caller no longer binds it
+    cl = set(ordered_locals(caller))
+    clash = dict((k, v) for k, v in clash.items() if k in cl)
+    if clash:
+        _rename(wrap, clash)
+    if subst:
+        wrap = _Sub(subst).visit(wrap)
+    return wrap.body
+
+
+def _inline_into(f, h, is_method):
+    changed = False
+    for _round in range(4):
+        progress = False
+        for body in _stmt_lists(f):
+            for i, st in enumerate(body):
+                call, form = None, None
+                if isinstance(st, ast.Expr):
+                    call, form = st.value, 'expr'
+                elif isinstance(st, ast.Assign):
+                    call, form = st.value, 'assign'
+                elif isinstance(st, ast.Return) and st.value is not None:
+                    call, form = st.value, 'return'
+                binding = _match_call(call, h, is_method) if call is not None else None
+                if binding is None:
+                    continue
+                stmts = _instantiate(h, binding, f, is_method)
+                seen = []
+                if form == 'expr':
+                    def on_ret(r):
+                        return [] if r.value is None or _pure(r.value) else [ast.copy_location(ast.Expr(value=r.value), r)]
+                    new = _tail_convert(stmts, on_ret, lambda: [], seen)
+                elif form == 'assign':
+                    def on_ret(r, st=st):
+                        v = r.value if r.value is not None else ast.Constant(value=None)
+                        return [ast.copy_location(ast.Assign(targets=_copy.deepcopy(st.targets), value=v), r)]
+
+                    def on_fall(st=st):
+                        return [ast.copy_location(ast.Assign(targets=_copy.deepcopy(st.targets), value=ast.Constant(value=None)), st)]
+                    new = _tail_convert(stmts, on_ret, on_fall, seen)
+                else:
+                    new = _tail_convert(stmts, lambda r: [r], lambda: [ast.copy_location(ast.Return(value=ast.Constant(value=None)), st)], seen)
+                if not new:
+                    new = [ast.copy_location(ast.Pass(), st)]
+                for s_ in new:
+                    for x in ast.walk(s_):
+                        if not hasattr(x, 'lineno') and isinstance(x, (ast.stmt, ast.expr)):
+                            ast.copy_location(x, st)
+                body[i:i + 1] = new
+                progress = changed = True
+                break
+            if progress:
+                break
+        if not progress:
+            break
+    # expression-bodied helpers with pure arguments: anywhere in an expression
+    hb = _strip_doc(h.body)
+    if len(hb) == 1 and isinstance(hb[0], ast.Return) and hb[0].value is not None:
+        class T(ast.NodeTransformer):
+            done = False
+
+            def visit_FunctionDef(self, n):
+                return n if n is not f else self.generic_visit(n)
+
+            def visit_Lambda(self, n):
+                return n
+
+            def visit_Call(self, n):
+                self.generic_visit(n)
+                b = _match_call(n, h, is_method)
+                if b is not None and all(isinstance(a, (ast.Name, ast.Constant)) or _pure(a) for _p, a in b):
+                    T.done = True
+                    return ast.copy_location(_Sub(dict(b)).visit(_copy.deepcopy(hb[0].value)), n)
+                return n
+        T().visit(f)
+        changed = changed or T.done
+    return changed
+
+
+def inline_new_helpers(tree, known):
+    """known: set of qualified function names of the reference tree for this module"""
+    count = 0
+    classes = [c for c in tree.body if isinstance(c, ast.ClassDef)]
+    mod_funcs = [f for f in tree.body if isinstance(f, ast.FunctionDef)]
+    # new methods
+    for c in classes:
+        meths = [f for f in c.body if isinstance(f, (ast.FunctionDef, ast.AsyncFunctionDef))]
+        new = [f for f in meths if isinstance(f, ast.FunctionDef) and (c.name + '.' + f.name) not in known and _inlinable(f, True)]
+        if not new:
+            continue
+        for _round in range(3):
+            again = False
+            for h in new:
+                for f in meths:
+                    if f is not h and _inline_into(f, h, True):
+                        again = True
+                        count += 1
+            if not again:
+                break
+        for h in new:
+            refs = [n for n in ast.walk(tree) if isinstance(n, ast.Attribute) and n.attr == h.name and not any(n is x for x in ast.walk(h))]
+            if not refs:
+                c.body.remove(h)
+    # new module-level functions
+    new = [f for f in mod_funcs if f.name not in known and _inlinable(f, False)]
+    if new:
+        everyone = [f for f in ast.walk(tree) if isinstance(f, (ast.FunctionDef, ast.AsyncFunctionDef))]
+        for _round in range(3):
+            again = False
+            for h in new:
+                for f in everyone:
+                    if f is not h and _inline_into(f, h, False):
+                        again = True
+                        count += 1
+            if not again:
+                break
+        for h in new:
+            refs = [n for n in ast.walk(tree) if isinstance(n, ast.Name) and n.id == h.name and not any(n is x for x in ast.walk(h))]
+            if not refs:
+                tree.body.remove(h)
+    return count
